@@ -2,7 +2,7 @@
 From Cfb.model Require Import Base Names DirEnt State Alloc Dir Mini Store Handle Open Cfb.
 From Cfb.gen Require Import Consts.
 From Cfb.spec Require Import WfImage.
-From Cfb.proofs Require Import WfProofs CoherenceProofs ReuseProofs DirProofs WalkSafe ReadonlyTotal PersistProofs WfPersist DataWf DataWf2 HistoryRefine Progress.
+From Cfb.proofs Require Import WfProofs CoherenceProofs ReuseProofs DirProofs WalkSafe ReadonlyTotal PersistProofs WfPersist DataWf DataWf2 SmallShrink HistoryRefine Progress.
 Set Printing Width 110.
 
 (* base case, version 3 *)
@@ -310,6 +310,18 @@ Theorem C03_migration_large_to_small_keeps_it : ltac:(let t := type of resize_bi
 Proof. exact resize_big_to_small_dinv. Qed.
 Check C03_migration_large_to_small_keeps_it.
 Print Assumptions C03_migration_large_to_small_keeps_it.
+
+(* SmallShrink: the small stream cut to fewer non-zero mini sectors - exact length, released cells free and unowned, nothing leaked *)
+Theorem C03_small_shrink_keeps_it : ltac:(let t := type of resize_small_shrink_dinv in exact t).
+Proof. exact resize_small_shrink_dinv. Qed.
+Check C03_small_shrink_keeps_it.
+Print Assumptions C03_small_shrink_keeps_it.
+
+(* the checker accepts the image after it *)
+Theorem C03_small_shrink_image_is_well_formed : ltac:(let t := type of resize_shrink_image_wf in exact t).
+Proof. exact resize_shrink_image_wf. Qed.
+Check C03_small_shrink_image_is_well_formed.
+Print Assumptions C03_small_shrink_image_is_well_formed.
 
 (* one API step of a covered history (all 11 resize cases, all 6 write cases, the 3 removal cases, reopen, queries) *)
 Theorem C03_every_covered_step_keeps_it : ltac:(let t := type of step_w2_full in exact t).
